@@ -219,15 +219,15 @@ inductive Resp where
   | zero
   /-- `Err(Interrupted)` -/
   | intr
-  /-- `Err(kind)` -/
-  | fail (tag : Nat)
+  /-- `Err(e)` with `e.kind() == kind` -/
+  | fail (kind : Kind)
 deriving DecidableEq, Repr, Inhabited
 
 def Resp.answer (buf : Bytes) : Resp → WRes
   | .short n => .ok (min n buf.length)
   | .zero => .ok 0
   | .intr => .err { kind := .interrupted }
-  | .fail t => .err { kind := .other t }
+  | .fail k => .err { kind := k }
 
 def scriptPolicy (script : List Resp) (tail : Resp) : List Call → Bytes → WRes :=
   fun log buf => ((script[log.length]?).getD tail).answer buf
